@@ -53,7 +53,8 @@ def configs(tier, seed):
         for gz in (False, True):
             for op in ("store_chunk_new", "store_chunk_over", "store_file", "fetch_chunk", "fetch_file", "file_exists"):
                 out.append(dict(harness="fault_file", flat=flat, gzip=gz, op=op, cost=2))
-    out.append(dict(harness="fault_sharded", cost=4, wall=900))
+    out.append(dict(harness="fault_sharded", strategy="in memory", cost=4, wall=900))
+    out.append(dict(harness="fault_sharded", strategy="on disk", cost=6, wall=900))
     for enc in ("raw", "compressed_segmentation"):
         for gz in (False, True):
             for over in (False, True):
@@ -163,53 +164,63 @@ def H_fault_file(ctx, cfg):
 def H_fault_sharded(ctx, cfg):
     env = Env()
     sb, sfa = S.setup(env)
-    grid = (2, 2, 1)
+    strategy = cfg.get("strategy", "in memory")
+    grid = (2, 2, 2)
     info = S.make_info(grid, 1, 1, 1, 0)
-    acc = sfa.ShardedFileAccessor(S.BASE, strategy="in memory")
+    acc = sfa.ShardedFileAccessor(S.BASE, strategy=strategy)
     acc.info = copy.deepcopy(info)
     p0, p1 = S.payload("a", 2), S.payload("b", 3)
     acc.store_chunk(p0, S.KEY, (0, 1, 0, 1, 0, 1))     # id 0 -> shard 0
     acc.store_chunk(p1, S.KEY, (1, 2, 0, 1, 0, 1))     # id 1 -> shard 0
     acc.close()
     env.run_atexit()
-    new = S.payload("n", 2)
-    ctx.input("payloads", [list(p0.bs), list(p1.bs), list(new.bs)])
-    w = sfa.ShardedFileAccessor(S.BASE, strategy="in memory")
+    new, new2 = S.payload("n", 2), S.payload("m", 1)
+    ctx.input("payloads", [list(p0.bs), list(p1.bs), list(new.bs), list(new2.bs)])
+
+    def write(w):
+        # ids 2 and 3 -> shard 1 (another file), two different minishards
+        w.store_chunk(new, S.KEY, (0, 1, 1, 2, 0, 1))
+        w.store_chunk(new2, S.KEY, (1, 2, 1, 2, 0, 1))
+        w.close()
+    w = sfa.ShardedFileAccessor(S.BASE, strategy=strategy)
     w.info = copy.deepcopy(info)
-    w.store_chunk(new, S.KEY, (0, 1, 1, 2, 0, 1))      # id 2 -> shard 1 (another file)
     snap = dict(env.fs.files)
-    c0 = env.fs.calls
-    w.close()
+    c0, l0 = env.fs.calls, len(env.fs.log)
+    write(w)
     n_calls = env.fs.calls - c0
+    kinds = [x[0] for x in env.fs.log[l0:l0 + n_calls]]
     env.fs.files = dict(snap)
-    w = sfa.ShardedFileAccessor(S.BASE, strategy="in memory")
+    w = sfa.ShardedFileAccessor(S.BASE, strategy=strategy)
     w.info = copy.deepcopy(info)
-    w.store_chunk(new, S.KEY, (0, 1, 1, 2, 0, 1))
     ni = SInt.var("call", "int")
     ctx.assume(z3.And(ni.e >= 0, ni.e < n_calls))
     ei = SInt.var("errno", "int")
     ctx.assume(z3.And(ei.e >= 0, ei.e < len(ERRNOS)))
     n, e = ni.__index__(), ERRNOS[ei.__index__()]
-    ctx.input("fault", [n, errno.errorcode[e]])
+    ctx.input("fault", [n, errno.errorcode[e], kinds[n], kinds[:n].count(kinds[n])])
+    ctx.input("kinds", kinds)
+    if kinds[n] in ("is_file", "exists", "is_dir") and e == errno.ENOENT:
+        ctx.ok("probe-answered-no-such-file")         # ENOENT on a probe *is* the operating system's answer
+        return
     env.fs.fail_at = (env.fs.calls + n, e)
     log0 = len(env.fs.log)
     DataAccessError = load.mod("accessor").DataAccessError
     try:
-        w.close()
+        write(w)
     except Exception as exc:
         env.fs.fail_at = None
         site = env.fs.log[log0 + n] if len(env.fs.log) > log0 + n else None
         if type(exc).__name__ in ("OutsideModel", "Inconclusive"):
             raise
-        ctx.sample(dict(site=site, errno=errno.errorcode[e], raised=type(exc).__name__))
+        ctx.sample(dict(site=site, errno=errno.errorcode[e], raised=type(exc).__name__, strategy=strategy))
         if not _allowed_io_error(exc, DataAccessError):
-            ctx.fail("io-failure-surfaced-as-unrelated-exception", detail=f"close call {n} {site}: {type(exc).__name__}: {exc}")
+            ctx.fail("io-failure-surfaced-as-unrelated-exception", detail=f"call {n} {site}: {type(exc).__name__}: {exc}")
             return
-        ctx.ok("close-failure-reported-as-OSError")
+        ctx.ok("failure-reported-as-OSError")
     else:
         env.fs.fail_at = None
         site = env.fs.log[log0 + n] if len(env.fs.log) > log0 + n else None
-        ctx.fail("close-returned-normally-although-a-call-failed", detail=f"call {n} {site} {errno.errorcode[e]}")
+        ctx.fail("store-and-close-returned-normally-although-a-call-failed", detail=f"call {n} {site} {errno.errorcode[e]}")
         return
     r = sfa.ShardedFileAccessor(S.BASE)
     r.info = copy.deepcopy(info)
@@ -585,4 +596,147 @@ def replay(cfg, cex):
             if real_np.array_equal(got, new) or (old is not None and real_np.array_equal(got, old)):
                 return False, "complete chunk"
             return True, f"leftover partial file decoded to {got.ravel().tolist()} (written {new.ravel().tolist()})"
+    if h == "fault_sharded":
+        return _replay_fault_sharded(cfg, inp)
     return True, "model-level counterexample (fault plan on the model file system); see inputs"
+
+
+def _replay_fault_sharded(cfg, inp):
+    """The same store/close sequence on the real sharded accessor in a temporary directory; the file-system entry points
+    it uses are wrapped so that the call the model chose (same kind, same occurrence) fails with the chosen errno.  The
+    sequence of call kinds of a fault-free real run must equal the model's, otherwise the replay is not comparable."""
+    import os
+    import pathlib
+    import tempfile
+    import unittest.mock as um
+    sfa = load.mod("sharded_file_accessor")
+    acc_mod = load.mod("accessor")
+    p0, p1, new, new2 = (bytes(x) for x in inp["payloads"])
+    n, ename, kind, occ = inp["fault"]
+    e = getattr(errno, ename)
+    strategy = cfg.get("strategy", "in memory")
+    info = S.make_info((2, 2, 2), 1, 1, 1, 0)
+    state = dict(seq=[], counters={}, armed=False)
+
+    def hit(k):
+        state["seq"].append(k)
+        i = state["counters"].get(k, 0)
+        state["counters"][k] = i + 1
+        return state["armed"] and k == kind and i == occ
+
+    def boom():
+        raise OSError(e, os.strerror(e))
+
+    class FileProxy:
+        def __init__(self, f):
+            self._f = f
+
+        def write(self, b):
+            if hit("write"):
+                boom()
+            return self._f.write(b)
+
+        def read(self, *a):
+            if hit("read"):
+                boom()
+            return self._f.read(*a)
+
+        def seek(self, *a):
+            if hit("seek"):
+                boom()
+            return self._f.seek(*a)
+
+        def tell(self):
+            return self._f.tell()
+
+        def close(self):
+            self._f.close()
+            if hit("close"):
+                boom()
+
+        def __enter__(self):
+            return self
+
+        def __exit__(self, *a):
+            self.close()
+            return False
+    real_open, real_isfile, real_mkdir, real_td = open, pathlib.Path.is_file, pathlib.Path.mkdir, sfa.TemporaryDirectory
+
+    def p_open(path, mode="r", *a, **k):
+        if hit("open:" + mode):
+            boom()
+        return FileProxy(real_open(path, mode, *a, **k))
+
+    def p_isfile(self_):
+        if hit("is_file"):
+            if e in (errno.ENOENT, errno.ENOTDIR, errno.EBADF, errno.ELOOP):
+                return False
+            boom()
+        return real_isfile(self_)
+
+    def p_mkdir(self_, *a, **k):
+        if not str(self_).startswith(tempfile.gettempdir() + os.sep + "tmp") or str(self_).startswith(base):
+            if hit("mkdir"):
+                boom()
+        return real_mkdir(self_, *a, **k)
+
+    def p_td(*a, **k):
+        if hit("mkdir"):
+            boom()
+        return real_td(*a, **k)
+
+    def run(td, armed):
+        state.update(seq=[], counters={}, armed=False)
+        w = sfa.ShardedFileAccessor(td, strategy=strategy)
+        w.info = copy.deepcopy(info)
+        state.update(seq=[], counters={}, armed=armed)       # the model counts from the first store_chunk on
+        w.store_chunk(new, S.KEY, (0, 1, 1, 2, 0, 1))
+        w.store_chunk(new2, S.KEY, (1, 2, 1, 2, 0, 1))
+        w.close()
+    with tempfile.TemporaryDirectory() as top:
+        base = top
+        results = {}
+        for armed in (False, True):
+            td = os.path.join(top, "armed" if armed else "dry")
+            acc = sfa.ShardedFileAccessor(td, strategy=strategy)
+            acc.info = copy.deepcopy(info)
+            acc.store_chunk(p0, S.KEY, (0, 1, 0, 1, 0, 1))
+            acc.store_chunk(p1, S.KEY, (1, 2, 0, 1, 0, 1))
+            acc.close()
+            had_open = "open" in sfa.__dict__
+            sfa.open = p_open
+            patches = [um.patch.object(pathlib.Path, "is_file", p_isfile), um.patch.object(pathlib.Path, "mkdir", p_mkdir),
+                       um.patch.object(sfa, "TemporaryDirectory", p_td)]
+            for p_ in patches:
+                p_.start()
+            try:
+                try:
+                    run(td, armed)
+                    results[armed] = None
+                except Exception as exc:
+                    results[armed] = exc
+            finally:
+                for p_ in patches:
+                    p_.stop()
+                if not had_open:
+                    del sfa.open
+            if not armed:
+                if results[False] is not None:
+                    return False, f"fault-free real run failed: {results[False]!r}"
+                if state["seq"] != list(inp["kinds"]):
+                    return False, f"real call sequence {state['seq']} differs from the model's {inp['kinds']}: not comparable"
+        exc = results[True]
+        if exc is None:
+            return True, f"{strategy}: store/close returned normally although {kind} #{occ} failed with {ename}"
+        if not isinstance(exc, (OSError, acc_mod.DataAccessError)):
+            return True, f"{strategy}: {kind} #{occ} failing with {ename} surfaced as {type(exc).__name__}: {exc}"
+        r = sfa.ShardedFileAccessor(os.path.join(top, "armed"))
+        r.info = copy.deepcopy(info)
+        for cc, pl in (((0, 1, 0, 1, 0, 1), p0), ((1, 2, 0, 1, 0, 1), p1)):
+            try:
+                got = r.fetch_chunk(S.KEY, cc)
+            except Exception as exc2:
+                return True, f"earlier chunk {cc} no longer readable after the failed write: {type(exc2).__name__}: {exc2}"
+            if bytes(got) != pl:
+                return True, f"earlier chunk {cc} changed after the failed write"
+    return False, "failure reported and earlier chunks intact on the real code"
